@@ -52,6 +52,29 @@ Theorem plain_string_literal : forall body rest : bytes, Forall (fun c => plain_
   quoted_string (34%N :: body ++ 34%N :: rest) = Ok (34%N :: body ++ [34%N]) rest.
 Proof. exact quoted_string_plain. Qed.
 
+(* fully syntactic instances: a name is a letter or underscore followed by letters, digits and
+   underscores, and ends at the first other byte; a chain of members a.b.c is taken whole when what
+   follows neither continues the last name nor starts a postfix form -- e.g. before a space, `<`,
+   `,`, `)`, `}` of the enclosing block, `@`, the end of the text, or a `.` that is followed by no
+   expression (`@user.name.` renders the member, then a full stop) *)
+Theorem name_taken_whole : forall c cs r, ident_start c = true -> Forall (fun x => ident_char x = true) cs -> name_stop r ->
+  rust_name ((c :: cs) ++ r) = Ok (c :: cs) r.
+Proof. exact rust_name_ident. Qed.
+Theorem member_chain_taken_whole : forall segs r n, segs <> [] -> Forall is_ident segs -> name_stop r -> xstop r ->
+  List.length segs + 2 <= n -> expression (expr_gram n) (dotted segs ++ r) = Ok (dotted segs) r.
+Proof. exact ExprComplete.member_chain_taken_whole. Qed.
+Example user_name_then_full_stop :
+  expression (expr_gram 9) (dotted [b "user"; b "name_2"; b "_x"] ++ b ". Next") = Ok (b "user.name_2._x") (b ". Next").
+Proof.
+  apply member_chain_taken_whole; [discriminate| | | |cbn; lia].
+  - assert (I : forall s, match s with c :: cs => ident_start c && forallb ident_char cs | [] => false end = true -> is_ident s).
+    { intros [|c cs] H; [discriminate|]. apply andb_true_iff in H. destruct H as [H1 H2]. exists c, cs. split; [reflexivity|]. split; [exact H1|].
+      apply Forall_forall. rewrite forallb_forall in H2. exact H2. }
+    repeat (apply Forall_cons; [apply I; vm_compute; reflexivity|]). apply Forall_nil.
+  - right. exists 46%N, (b " Next"). split; reflexivity.
+  - cbn. repeat split; try discriminate; intros; try discriminate; cbn; repeat split; try discriminate.
+Qed.
+
 (* together with the template level: `@` followed by a derivable expression is one Expr node holding exactly that text *)
 Theorem at_expression_complete : forall n ln m i r, XE n i r -> dispatch (64%N :: i) = Ok [] i ->
   texpr_gram (expr_gram n) ln (S m) TE (64%N :: i) = Ok (TExpr (slice i r)) r.
@@ -123,6 +146,9 @@ Redirect "assumptions/C05.paren_scan_complete" Print Assumptions paren_scan_comp
 Redirect "assumptions/C05.chain_stops" Print Assumptions chain_stops.
 Redirect "assumptions/C05.comments_hide_delimiters" Print Assumptions comments_hide_delimiters.
 Redirect "assumptions/C05.plain_string_literal" Print Assumptions plain_string_literal.
+Redirect "assumptions/C05.name_taken_whole" Print Assumptions name_taken_whole.
+Redirect "assumptions/C05.member_chain_taken_whole" Print Assumptions member_chain_taken_whole.
+Redirect "assumptions/C05.user_name_then_full_stop" Print Assumptions user_name_then_full_stop.
 Redirect "assumptions/C05.at_expression_complete" Print Assumptions at_expression_complete.
 Redirect "assumptions/C05.expression_follower_grid" Print Assumptions expression_follower_grid.
 Redirect "assumptions/C05.paren_expression" Print Assumptions paren_expression.
